@@ -11,12 +11,18 @@ package main
 //	            invoked must precede it in any linearization)
 //	   final  = observation after all goroutines have finished, same format as a history step
 import (
+	"errors"
 	"fmt"
 	"os"
 	"strconv"
 	"strings"
 	"sync"
 	"sync/atomic"
+
+	"github.com/cockroachdb/pebble"
+	"github.com/cockroachdb/pebble/vfs"
+	"github.com/zen-eth/shisui/storage"
+	spebble "github.com/zen-eth/shisui/storage/pebble"
 )
 
 func stLin(c *Ctx, capMB uint64, node [32]byte, plan [][]linPut) {
@@ -80,8 +86,26 @@ func init() {
 		n, _ := strconv.ParseUint(f[1], 10, 64)
 		stLin(c, n, node, linParsePlan(f[3]))
 	}
+	stExtraExec["rderr05"] = func(c *Ctx, f []string) {
+		var node [32]byte
+		copy(node[:], unhx(f[2]))
+		n, _ := strconv.ParseUint(f[1], 10, 64)
+		stReadErr(c, n, node, parseOps(f[3]))
+	}
 	stExtraGens["05"] = func(c *Ctx) {
 		r := c.Rng
+		for i := 0; i < 3; i++ {
+			node := genNode(c)
+			ids := genIds(c, node, false)
+			var ops []stOp
+			for _, o := range genOps(c, 1, ids, 4+r.Intn(8), r.Pick([]int{1, 2, 3}), false) {
+				if o.kind == 'p' {
+					ops = append(ops, o)
+				}
+			}
+			c.Count("read_error_restart")
+			stReadErr(c, 1, node, ops)
+		}
 		n := 40
 		if c.Tier == "thorough" {
 			n = 1500
@@ -117,4 +141,103 @@ func init() {
 			stLin(c, 1, node, plan)
 		}
 	}
+}
+
+// ---------------------------------------------------------------- a restart whose read of the size record fails
+//
+//	rderr05 <capMB> <node> <ops> | <outcome of NewStorage while sstable reads fail> <observation after a healthy reopen>
+//
+// pebble on an in-memory file system; the puts of <ops> are flushed into sstables and the store is closed.  Then every
+// read of an *.sst file fails with an I/O error and the store is opened again: db.Get(SizeKey) inside NewStorage cannot
+// succeed.  Outcome: `openerr` (NewStorage refuses to start) or `started,<counter>,<radius>`.  Finally the fault is
+// removed and the store is reopened and observed as usual.
+type failFS struct {
+	vfs.FS
+	armed atomic.Bool
+}
+type failFile struct {
+	vfs.File
+	fs *failFS
+}
+
+var errInjectedRead = errors.New("injected I/O error")
+
+func (f *failFS) Open(name string, opts ...vfs.OpenOption) (vfs.File, error) {
+	file, err := f.FS.Open(name, opts...)
+	if err != nil || !strings.HasSuffix(name, ".sst") {
+		return file, err
+	}
+	return &failFile{File: file, fs: f}, nil
+}
+func (f *failFile) ReadAt(p []byte, off int64) (int, error) {
+	if f.fs.armed.Load() {
+		return 0, errInjectedRead
+	}
+	return f.File.ReadAt(p, off)
+}
+func (f *failFile) Read(p []byte) (int, error) {
+	if f.fs.armed.Load() {
+		return 0, errInjectedRead
+	}
+	return f.File.Read(p)
+}
+
+func rdOpen(fs vfs.FS, capMB uint64, node [32]byte) (*stStore, error) {
+	db, err := pebble.Open("db", &pebble.Options{FS: fs, MemTableSize: 4 << 20})
+	if err != nil {
+		return nil, err
+	}
+	var cs storage.ContentStorage
+	if p, msg := guard(func() {
+		cs, err = spebble.NewStorage(storage.PortalStorageConfig{StorageCapacityMB: capMB, NodeId: node, NetworkName: "verif"}, db)
+	}); p {
+		err = errors.New("panic: " + msg)
+	}
+	if err != nil {
+		waitPruneGoroutines()
+		db.Close()
+		return nil, err
+	}
+	return &stStore{capMB: capMB, node: node, db: db, cs: cs, pruned: true}, nil
+}
+
+func stReadErr(c *Ctx, capMB uint64, node [32]byte, ops []stOp) {
+	head := fmt.Sprintf("rderr05 %d %s %s", capMB, hx(node[:]), opsString(ops))
+	var out string
+	p, msg := guard(func() {
+		ffs := &failFS{FS: vfs.NewMem()}
+		s, err := rdOpen(ffs, capMB, node)
+		if err != nil {
+			panic("open: " + err.Error())
+		}
+		for _, o := range ops {
+			if o.kind == 'p' {
+				_ = s.cs.Put(nil, o.id, o.val.Bytes())
+			}
+		}
+		waitPruneGoroutines()
+		if err := s.db.Flush(); err != nil {
+			panic(err)
+		}
+		s.close()
+		ffs.armed.Store(true)
+		outcome := "openerr"
+		if s2, err := rdOpen(ffs, capMB, node); err == nil {
+			outcome = fmt.Sprintf("started,%d,%s", spebble.VerifCounter(s2.cs), s2.cs.Radius().Hex()[2:])
+			ffs.armed.Store(false)
+			s2.close()
+		}
+		ffs.armed.Store(false)
+		s3, err := rdOpen(ffs, capMB, node)
+		if err != nil {
+			panic("healthy reopen: " + err.Error())
+		}
+		out = outcome + " " + s3.observe("-", idPool(ops))
+		s3.close()
+	})
+	if p {
+		c.Emit("%s | panic %s", head, msg)
+		return
+	}
+	c.Emit("%s | %s", head, out)
 }
